@@ -1,5 +1,6 @@
 import SlogModel.Lemmas.E2E
 import SlogModel.Lemmas.ClientRefine
+import SlogModel.Props.C03
 import SlogModel.Gen.Facts
 
 /-!
@@ -182,6 +183,37 @@ example : (Client.run (Client.init [0, 1, 2]) demoClient).map (fun c => (c.confi
 example : (run { queue := [0, 1, 2] } (ClientRefine.mapRun (Client.init [0, 1, 2]) demoClient)).map (fun e => (e.acked, e.disk, e.running)) =
     some ([0], [1, 2], false) := by
   simp [demoClient, ClientRefine.mapRun, ClientRefine.mapAct, Client.run, Client.step, Client.init, Client.newLeft, Client.dedupSorted, Client.ackCap, List.mergeSort, List.MergeSort.Internal.splitInTwo, run, step, closeChunk, sortIds, ins]
+
+/-! ### the interface between buffer and client: what the consumer receives is what `Client.init` is given -/
+
+/-- **C01 (the buffer hands chunks to the client oldest first).** When the ids of the chunks a generation of the buffer
+recovered and accepted increase (file names in order, C03_recovered_first; fresh ids above everything older,
+C11_ids_increasing), the ids the consumer receives increase strictly — after any operation sequence, spills, reloads from
+disk and drops included.  This is the precondition `hq` of the refinement theorem. -/
+theorem C01_buffer_hands_chunks_in_id_order (cfg : Buffer.Cfg) (disk : List (Nat × Bytes)) (ops : List Buffer.Op) (b : Buffer.St)
+    (h : Buffer.run (Buffer.recover cfg disk) ops = some b) (hacc : (b.accepted.map (·.1)).Pairwise (· < ·)) :
+    (b.taken.map (·.1)).Pairwise (· < ·) :=
+  List.Pairwise.sublist (C03.C03_taken_in_order cfg disk ops b h) hacc
+
+open ClientRefine in
+/-- **C01 (buffer, then client, then the chunk-level system).** Whatever the buffer did and whatever the client does with
+the chunks it received from it — any run of `Client.step` — the chunk-level view of the client moves as `E2E.step` does. -/
+theorem C01_buffer_client_refine_e2e (cfg : Buffer.Cfg) (disk : List (Nat × Bytes)) (ops : List Buffer.Op) (b : Buffer.St)
+    (h : Buffer.run (Buffer.recover cfg disk) ops = some b) (hacc : (b.accepted.map (·.1)).Pairwise (· < ·))
+    (acts : List Client.Act) (c : Client.St) (hc : Client.run (Client.init (b.taken.map (·.1))) acts = some c)
+    (e0 : St) (hr : e0.running = true) (hcur : e0.cur = []) (hi : e0.inflight = []) (hq0 : e0.queue = b.taken.map (·.1)) :
+    ∃ e, run e0 (mapRun (Client.init (b.taken.map (·.1))) acts) = some e ∧ Rel e0.acked c e :=
+  let ⟨e, h1, h2, _⟩ := C01_client_refines_e2e _ (C01_buffer_hands_chunks_in_id_order cfg disk ops b h hacc) acts c hc e0 hr hcur hi hq0
+  ⟨e, h1, h2⟩
+
+/-- non-vacuity of `hacc`: a generation that accepted chunks 1, 2 and 3; the consumer has received 1 and 2 -/
+example : ((Buffer.run (Buffer.recover { memCap := 4, queueCap := 10, maxBytes := 100, hasDir := true } [])
+              [.accept 1 [7], .accept 2 [8], .accept 3 [9], .take, .take]).map (fun b => (b.accepted.map (·.1), b.taken.map (·.1)))) =
+    some ([1, 2, 3], [1, 2]) := by
+  have h0 : Buffer.scanned { memCap := 4, queueCap := 10, maxBytes := 100, hasDir := true } [] = [] := by
+    simp [Buffer.scanned]
+  simp only [Buffer.recover, h0, List.foldl_nil]
+  decide
 
 /-! ### fact obligations (Tie B): the mechanisms behind the actions of `E2E.step` -/
 
